@@ -15,6 +15,7 @@
 import YtkProofs.Codec
 import YtkProofs.CodecI
 import YtkProofs.Decisions
+import YtkProofs.FuncsDomCodec
 
 namespace Ytk.C01
 
@@ -202,5 +203,54 @@ theorem scalarCount_decode_counterexample :
   · intro p hp
     simp only [List.mem_cons, List.not_mem_nil, or_false] at hp
     rcases hp with rfl | rfl <;> exact .sc _
+
+end Ytk.C01
+
+/-! ## xlate7d: the REGENERATED translation of the encoders of dom/codec.go (Generated/FuncsDom.lean)
+
+  `encodeLeafFn`, `encodeListFn` (`make([]interface{}, n)` + `res[i] = …`), `encodeContainerFn` (a fresh Go map filled
+  key by key), and `AsMap`, `AsSlice`, `DefaultNodeMappingFn`, `DefaultNodeEncoderFn` on top are rewritten from the Go
+  source on every run; on this side `interface{}` is a plain value (`Val`).  `WF` = every container is a Go map
+  (strictly sorted keys in the model's representation): the translated loop rebuilds the map. -/
+namespace Ytk.C01
+open Ytk.Generated
+
+theorem encodeContainerFn_generated_eq_model (c : AMap Node) (h : (Node.cont c).WF) :
+    FuncsDom.encodeContainerFn c = .ok (encodeKvs c) :=
+  FuncsDomCodec.encodeContainerFn_generated_eq_model c h
+
+theorem encodeListFn_generated_eq_model (l : List Node) (h : (Node.list l).WF) :
+    FuncsDom.encodeListFn l = .ok (encodeList l) :=
+  FuncsDomCodec.encodeListFn_generated_eq_model l h
+
+theorem encodeLeafFn_generated_eq_model (s : Scalar) : FuncsDom.encodeLeafFn s = .ok (encodeNode (.leaf s)) := rfl
+
+/-- Container.AsMap() -/
+theorem AsMap_generated_eq_model (c : AMap Node) (h : (Node.cont c).WF) :
+    FuncsDom.containerAsMap c = .ok (asMap c) :=
+  FuncsDomCodec.containerAsMap_generated_eq_model c h
+
+/-- List.AsSlice() -/
+theorem AsSlice_generated_eq_model (l : List Node) (h : (Node.list l).WF) :
+    FuncsDom.listAsSlice l = .ok (encodeList l) :=
+  FuncsDomCodec.listAsSlice_generated_eq_model l h
+
+/-- DefaultNodeEncoderFn (what Serialize hands to the encoder) -/
+theorem DefaultNodeEncoderFn_generated_eq_model (c : AMap Node) (h : (Node.cont c).WF) :
+    FuncsDom.DefaultNodeEncoderFn c = .ok (encodeNode (.cont c)) :=
+  FuncsDomCodec.DefaultNodeEncoderFn_generated_eq_model c h
+
+/-- `WF` is needed as a matter of representation only: on an association list that is not a Go map the translated
+    loop yields the sorted map, the model keeps the order of the list -/
+theorem encode_generated_needs_wf_counterexample :
+    FuncsDom.encodeContainerFn [("b", Node.null), ("a", Node.null)] = .ok [("a", Val.null), ("b", Val.null)] ∧
+    encodeKvs [("b", Node.null), ("a", Node.null)] = [("b", Val.null), ("a", Val.null)] := by
+  decide +kernel
+
+/-- the translated encoders RUN on nested lists and containers -/
+theorem nonvacuous_encode_generated :
+    FuncsDom.containerAsMap [("a", .list [.leaf ⟨"int", "1"⟩, .cont [("x", .leaf ⟨"string", "s"⟩)], .list []]), ("b", .cont [])]
+      = .ok [("a", .arr [.sc ⟨"int", "1"⟩, .obj [("x", .sc ⟨"string", "s"⟩)], .arr []]), ("b", .obj [])] := by
+  decide +kernel
 
 end Ytk.C01
